@@ -12,6 +12,6 @@
 //@include units/speclib_fp.rs
 //@include units/speclib_edf.rs
 //@include units/ros2_types.rs
-//@include units/ros2_rr.rs
-//@include units/lemmas_ros2.rs
+//@include units/ros2_bw.rs
+
 fn main() {}
